@@ -214,6 +214,12 @@ impl<VM: VMBinding> Space<VM> for LargeObjectSpace<VM> {
     }
 
     fn release_multiple_pages(&mut self, start: Address) {
+        #[cfg(feature = "mmtk_verif")]
+        crate::verif::gc::ev(
+            crate::verif::gc::Kind::PrReleasePages,
+            crate::verif::gc::space_tag(self.get_name(), 0),
+            start.as_usize(),
+        );
         self.pr.release_pages(start);
     }
 
@@ -372,6 +378,8 @@ impl<VM: VMBinding> LargeObjectSpace<VM> {
     }
 
     fn sweep_large_pages(&mut self, sweep_nursery: bool) {
+        #[cfg(feature = "mmtk_verif")]
+        let verif_name = self.get_name();
         let sweep = |object: ObjectReference| {
             #[cfg(feature = "vo_bit")]
             crate::util::metadata::vo_bit::unset_vo_bit(object);
@@ -379,6 +387,12 @@ impl<VM: VMBinding> LargeObjectSpace<VM> {
             if self.clear_log_bit_on_sweep {
                 VM::VMObjectModel::GLOBAL_LOG_BIT_SPEC.clear::<VM>(object, Ordering::SeqCst);
             }
+            #[cfg(feature = "mmtk_verif")]
+            crate::verif::gc::ev(
+                crate::verif::gc::Kind::PrReleasePages,
+                crate::verif::gc::space_tag(verif_name, 0),
+                get_super_page(object.to_object_start::<VM>()).as_usize(),
+            );
             self.pr
                 .release_pages(get_super_page(object.to_object_start::<VM>()));
         };
@@ -433,6 +447,8 @@ impl<VM: VMBinding> LargeObjectSpace<VM> {
             if mark_bit == value {
                 return false;
             }
+            #[cfg(feature = "mmtk_verif")]
+            crate::verif::gc::yp(crate::verif::gc::Site::LosTestAndMark);
             // using LOS_BIT_MASK have side effects of clearing nursery bit
             if VM::VMObjectModel::LOCAL_LOS_MARK_NURSERY_SPEC
                 .compare_exchange_metadata::<VM, u8>(
